@@ -124,3 +124,31 @@ def replay(lab, path):
         print("VIOLATION property=C19 replay=%s" % path)
         return 1
     return 0
+
+
+def selftest(lab):
+    """binding demonstration for Ports_Trace: the recorded parse results are accepted; one corrupted field is rejected"""
+    out = os.path.join(lib.scratch(), "c19-parse.ndjson")
+    rc, so, se = lib.run_lab(lab, ["c19", "-parse", "-out", out])
+    rows = lib.read_ndjson(out)[:3000]
+    for r in rows:
+        r["mproto"], r["mhost"], r["mnum"] = decompose(r["text"])
+        for k, d in (("proto", ""), ("ip", ""), ("port", -1), ("proto2", ""), ("port2", -1)):
+            r.setdefault(k, d)
+
+    def validate(rs, tag):
+        path = os.path.join(lib.scratch(), "c19-selftest-%s.ndjson" % tag)
+        lib.write_ndjson(path, rs)
+        return lib.tlc("Ports_Trace", workers=1, timeout=300, extra_files={"trace.ndjson": path}, want_scn=False)
+    clean = validate(rows, "clean")
+    bad = json.loads(json.dumps(rows))
+    k = next(i for i, r in enumerate(bad) if r["port"] == 80)
+    bad[k]["port"] = 81
+    r1 = validate(bad, "port")
+    bad2 = json.loads(json.dumps(rows))
+    k2 = next(i for i, r in enumerate(bad2) if r["proto"] == "tcp")
+    bad2[k2]["proto"] = "udp"
+    r2 = validate(bad2, "proto")
+    print("selftest C19: clean accepted=%s; port 80 recorded as 81 rejected=%s (line %s, expected %d); tcp recorded as udp rejected=%s" % (
+        clean.ok, not r1.ok, lib.rejected_at(r1), k + 1, not r2.ok))
+    return 0 if clean.ok and not r1.ok and lib.rejected_at(r1) == k + 1 and not r2.ok else 1
